@@ -31,7 +31,21 @@ Definition c05_rows_independent_statement (v : variant) : Prop :=
     parse strptime v sp inp = Rows (flat_map (accepted strptime v sp) (iter_rows v (has_header sp) inp)).
 
 (* unchanged code: refuted — one line whose optional regex group did not match loses the whole file *)
-
+Theorem c05_rows_independent_refuted : ~ c05_rows_independent_statement tree_variant.
+Proof.
+  intros H.
+  specialize (H (fun _ _ => Some [])
+                {| date_col := 0; date_fmt := bytes "%Y-%m-%d"; amount_col := 2; desc := DescCol 1 [];
+                   loc_col := Some 3%nat; has_header := false; negate := false; absolute := false;
+                   spec_source := None; source_name := bytes "Bank"; dec_sep := bytes "." |}
+                (RegexIn [ {| raw := bytes "2024-01-05|TEA HOUSE|4.50|CA";
+                              groups := Some [Some (bytes "2024-01-05"); Some (bytes "TEA HOUSE"); Some (bytes "4.50"); Some (bytes "CA")] |};
+                           {| raw := bytes "2024-01-06|NO LOCATION|5.00";
+                              groups := Some [Some (bytes "2024-01-06"); Some (bytes "NO LOCATION"); Some (bytes "5.00"); None] |} ])
+                eq_refl).
+  vm_compute in H. discriminate H.
+Qed.
+Print Assumptions c05_rows_independent_refuted.
 
 (* unchanged code: holds for every comma / one-character / tab delimited file, and for regex-delimited
    files in which every group of every matching line took part *)
@@ -74,7 +88,20 @@ Definition c05_accept_iff_wellformed_statement (v : variant) : Prop :=
     ((exists t, row_to_txn strptime v sp row = Txn t) <-> wellformed strptime true sp row).
 
 (* unchanged code: refuted — the amount cell 'nan' gives a transaction *)
-
+Theorem c05_accept_iff_wellformed_refuted : ~ c05_accept_iff_wellformed_statement tree_variant.
+Proof.
+  intros H.
+  specialize (H (fun _ _ => Some (bytes "2024-01-02T00:00:00"))
+                {| date_col := 0; date_fmt := bytes "%Y-%m-%d"; amount_col := 2; desc := DescCol 1 [];
+                   loc_col := None; has_header := true; negate := false; absolute := false;
+                   spec_source := None; source_name := bytes "Bank"; dec_sep := bytes "." |}
+                [Some (bytes "2024-01-02"); Some (bytes "COFFEE"); Some (bytes "nan")]
+                eq_refl).
+  destruct H as [H _]; [repeat constructor; discriminate|].
+  destruct H as [_ [_ [_ [a [Ha [_ Hf]]]]]]; [eexists; vm_compute; reflexivity|].
+  vm_compute in Ha. injection Ha as <-. specialize (Hf eq_refl). discriminate Hf.
+Qed.
+Print Assumptions c05_accept_iff_wellformed_refuted.
 
 (* any variant: accepted <-> enough columns, date parses, description present, amount a non-zero float
    that is finite if the variant rejects non-finite amounts.  For the unchanged code this is the
